@@ -43,7 +43,7 @@ type c18PreCase struct {
 func genC18Pre(t *rapid.T) c18PreCase {
 	return c18PreCase{Seed: rapid.Uint64().Draw(t, "seed"), Target: rapid.SampledFrom([]string{"identity", "bug"}).Draw(t, "target"),
 		OpA: rapid.SampledFrom([]string{"commit", "commitasneeded"}).Draw(t, "opA"), K: rapid.IntRange(0, 14).Draw(t, "k"),
-		OpB:  rapid.SampledFrom([]string{"resolve-others", "resolve-others", "new", "list", "same", "user"}).Draw(t, "opB"),
+		OpB:  rapid.SampledFrom([]string{"resolve-others", "resolve-others", "resolve-identities", "new", "list", "same", "user"}).Draw(t, "opB"),
 		Size: rapid.IntRange(1, 3).Draw(t, "size"), Reopen: rapid.Bool().Draw(t, "reopen")}
 }
 
@@ -190,6 +190,11 @@ func runC18Pre(tb report.TB, rep *report.Reporter, c c18PreCase) {
 					_, err = rc.Bugs().Resolve(bugIds[i])
 				}
 			}
+		case "resolve-identities":
+			// the people who wrote the loaded bugs are entities of their own cache, with their own eviction
+			for i := 1; i < 4 && err == nil; i++ {
+				_, err = rc.Identities().Resolve(identIds[i])
+			}
 		case "new":
 			if targetI != nil {
 				_, err = rc.Identities().New("late comer", "late@example.org")
@@ -247,6 +252,8 @@ func runC18Pre(tb report.TB, rep *report.Reporter, c c18PreCase) {
 			sig := "deadlock/handle-used-after-eviction" // the eviction took the entity lock for good, A's handle waits for it
 			if strings.Contains(dump, "evictIfNeeded") {
 				sig = "deadlock/eviction-and-update-wait-for-each-other"
+			} else if targetB != nil && strings.Contains(dump, "cache.(*IdentityCache).") {
+				sig = "deadlock/bug-edit-waits-for-an-evicted-identity" // the bug was never evicted: its author was
 			} else if aFinished {
 				sig = "deadlock/second-call-never-returns"
 			}
